@@ -130,53 +130,78 @@ theorem decOk_imp_relaxed (mode : Bool) (desc : Packet) (cut : Option Nat) (fed 
     exact fun h => h.1
   | some n => exact id
 
-/-- `<mode> <packet> <opt cut> <fed bytes> <before: list bytes> <after: list bytes> => <res view> <head>`.
+/-- `<mode> <packet> <opt cut> <fed bytes> <before: list bytes> <after: list bytes> <sub> => <res view> <head> <res view>`.
     Exact decoding is demanded of well-formed payloads only: field layout (`Packet.WF`) and RFC 7798
     semantics (`semanticOK`); on the others the code is compared with the model only.
     `before` / `after` are the payloads the SAME H265Packet parsed before / after the payload under
     test (both empty: a fresh receiver); the view is read from the packet object the caller kept, after
     all of them.  H265Packet decodes each payload on its own, so neither the model's answer nor what
     C14 demands ("decode every well-formed … payload to exactly the encoded field values") depends on
-    them; they are part of the input so that a failing case shows the receiver's history. -/
+    them; they are part of the input so that a failing case shows the receiver's history.
+    `<sub>` = 1: the receiver is not an H265Packet but the exported sub-parser of the described form
+    (H265SingleNALUnitPacket / H265AggregationPacket), ONE value for `before`, the payload and `after`;
+    the view is written from what its accessors returned right after the payload was decoded, kept
+    by the caller and re-read after `after`.  The model answers with that sub-parser (`decObsSub`).
+    The second `<res view>` of the observation is what a second receiver reports: ONE H265Packet with
+    SetZeroAllocation(true) that parsed `before` and then the payload, its accessors read at once;
+    H265Packet decodes each payload on its own in that mode too (model: `decode`), and the same
+    predicate is evaluated on it. -/
 def dec : Handler :=
   mkHandler
     (do let m ← Rd.bool; let (p, _) ← rdPacket false; let c ← Rd.opt Rd.nat; let b ← Rd.bytes
-        let _before ← Rd.list Rd.bytes; let _after ← Rd.list Rd.bytes
-        pure (m, p, c, b))
-    (do let r ← rdResParsed; let h ← Rd.bool; pure ({ res := r, head := h } : C14.DecObs))
-    (fun (m, _, _, b) => decObs m b)
-    (fun (m, p, c, b) o => decOkRelaxed m p c b o)
-    (fun (m, p, c, _) => p.WF m && semanticOK p &&
+        let _before ← Rd.list Rd.bytes; let _after ← Rd.list Rd.bytes; let sub ← Rd.bool
+        pure (m, p, c, b, sub))
+    (do let r ← rdResParsed; let h ← Rd.bool; let z ← rdResParsed
+        pure (({ res := r, head := h } : C14.DecObs), z))
+    (fun (m, p, _, b, sub) => (if sub then decObsSub m p b else decObs m b, decode m (some b)))
+    -- the predicate once on the receiver under test, once more on the zero-allocation receiver
+    (fun (m, p, c, b, _) (o, z) => decOkRelaxed m p c b o && decOkRelaxed m p c b { o with res := z })
+    (fun (m, p, c, _, _) => p.WF m && semanticOK p &&
       (match c with | none => true | some n => decide (n < (encode p).length)))
 
 /-! ### c14.rt -/
 
 structure RtIn where
-  cfg : Cfg
   mtu : UInt16
-  frames : List (List (Nat × Bytes))
+  calls : List RtCall
 
-/-- `<addDONL> <skipAgg> <mtu> <frames> <rx>`; `rx` = 1: every payload of the history was parsed by ONE
-    H265Packet (0: a fresh one per payload).  In both cases the views in the observation are read from
-    the decoded packets the caller kept, after the last payload was parsed.  The parser decodes each
-    payload on its own: the model and the predicate do not depend on `rx`. -/
+/-- `<mtu> <n> (<addDONL> <skipAgg> <units>)* <rx>`: one payloader, before every call the caller sets
+    the exported fields `AddDONL` / `SkipAggregation` to that call's values (constant in most
+    histories); each call's packets are parsed with the DONL setting of that call.  `rx` = 1: every
+    payload of the history was parsed by ONE H265Packet (0: a fresh one per payload).  In both cases
+    the views in the observation are read from the decoded packets the caller kept, after the last
+    payload was parsed.  The parser decodes each payload on its own: the model and the predicate do
+    not depend on `rx`. -/
 def rdRtIn : Rd RtIn := do
-  let a ← Rd.bool; let s ← Rd.bool; let m ← Rd.u16
-  let fr ← Rd.list (Rd.list (do let sc ← Rd.nat; let u ← Rd.bytes; pure (sc, u)))
+  let m ← Rd.u16
+  let cs ← Rd.list (do
+    let a ← Rd.bool; let s ← Rd.bool
+    let f ← Rd.list (do let sc ← Rd.nat; let u ← Rd.bytes; pure (sc, u))
+    pure (({ addDONL := a, skipAgg := s } : Cfg), f))
   let _rx ← Rd.bool
-  pure { cfg := { addDONL := a, skipAgg := s }, mtu := m, frames := fr }
+  pure { mtu := m, calls := cs }
 
-def rdPktObs : Rd C14.PktObs := do
-  let p ← Rd.bytes; let r ← rdResParsed; let h ← Rd.bool
-  pure { payload := p, res := r, head := h }
+/-- `<payload> <res view> <head> <res view>`: the second view is what the second receiver reports — ONE
+    H265Packet with SetZeroAllocation(true) for the whole history, read right after the payload was
+    decoded -/
+def rdPktObs : Rd (C14.PktObs × Res Parsed) := do
+  let p ← Rd.bytes; let r ← rdResParsed; let h ← Rd.bool; let z ← rdResParsed
+  pure ({ payload := p, res := r, head := h }, z)
 
-def rdRtObs : Rd (List (Option (List C14.PktObs))) :=
+abbrev RtObs2 := List (Option (List (C14.PktObs × Res Parsed)))
+
+def rdRtObs : Rd RtObs2 :=
   Rd.list (do
     let t ← Rd.tok
     match t with
     | "panic" => pure none
     | "ok" => do let l ← Rd.list rdPktObs; pure (some l)
     | _ => Rd.fail)
+
+/-- the observation of the receiver under test / of the zero-allocation receiver -/
+def RtObs2.main (o : RtObs2) : List (Option (List C14.PktObs)) := o.map (·.map (·.map (·.1)))
+def RtObs2.zero (o : RtObs2) : List (Option (List C14.PktObs)) :=
+  o.map (·.map (·.map fun (p, z) => { p with res := z }))
 
 /-- `C14.callOk` without what the statement of C14 does not say: that payloads fit the MTU (that is
     C08; the MTU occurs in `callOk` only in that conjunct, which is left out — an MTU argument raised
@@ -188,11 +213,6 @@ def callOkRelaxed (cfg : Cfg) (units : List Bytes) (o : List C14.PktObs) : Bool 
     ps.all (·.sizesOk) &&
     (o.zip ps).all (fun (p, v) => encode v.pkt == p.payload && shapeOk cfg.addDONL v.pkt) &&
     depack none (ps.map (·.pkt)) == some units
-
-def rtOkRelaxed (cfg : Cfg) : List (List (Nat × Bytes)) → List (Option (List C14.PktObs)) → Bool
-  | [], [] => true
-  | f :: fs, some o :: os => callOkRelaxed cfg (f.map (·.2)) o && rtOkRelaxed cfg fs os
-  | _, _ => false
 
 theorem callOk_imp_relaxed (cfg : Cfg) (mtu : UInt16) (units : List Bytes) (o : List C14.PktObs) :
     C14.callOk cfg mtu units o = true → callOkRelaxed cfg units o = true := by
@@ -208,18 +228,23 @@ theorem callOk_imp_relaxed (cfg : Cfg) (mtu : UInt16) (units : List Bytes) (o : 
     simp only at this ⊢
     exact ⟨this.1.1, this.2⟩
 
-/-- the theorems are about `C14.rtOk`; it implies what the driver evaluates -/
-theorem rtOk_imp_relaxed (cfg : Cfg) (mtu : UInt16) (fs : List (List (Nat × Bytes)))
-    (os : List (Option (List C14.PktObs))) :
-    C14.rtOk cfg mtu fs os = true → rtOkRelaxed cfg fs os = true := by
+def rtOkRelaxedF : List RtCall → List (Option (List C14.PktObs)) → Bool
+  | [], [] => true
+  | (cfg, f) :: fs, some o :: os => callOkRelaxed cfg (f.map (·.2)) o && rtOkRelaxedF fs os
+  | _, _ => false
+
+/-- the theorems are about `C14.rtOkF`; it implies what the driver evaluates -/
+theorem rtOkF_imp_relaxed (mtu : UInt16) (fs : List RtCall) (os : List (Option (List C14.PktObs))) :
+    C14.rtOkF mtu fs os = true → rtOkRelaxedF fs os = true := by
   induction fs generalizing os with
-  | nil => cases os <;> simp [C14.rtOk, rtOkRelaxed]
+  | nil => cases os <;> simp [C14.rtOkF, rtOkRelaxedF]
   | cons f fs ih =>
+    obtain ⟨cfg, f⟩ := f
     match os with
-    | [] => simp [C14.rtOk]
-    | none :: _ => simp [C14.rtOk]
+    | [] => simp [C14.rtOkF]
+    | none :: _ => simp [C14.rtOkF]
     | some o :: os =>
-      simp only [C14.rtOk, rtOkRelaxed, Bool.and_eq_true]
+      simp only [C14.rtOkF, rtOkRelaxedF, Bool.and_eq_true]
       exact fun h => ⟨callOk_imp_relaxed _ _ _ _ h.1, ih _ h.2⟩
 
 /-- the recorded defect `c14_donl_fu` undone on the receiving side: a non-first fragmentation unit
@@ -238,23 +263,29 @@ def callExplained (cfg : Cfg) (units : List Bytes) (o : List C14.PktObs) : Bool 
     (o.zip ps).all (fun (p, v) => encode v.pkt == p.payload && shapeOk cfg.addDONL v.pkt) &&
     depack none (ps.map (fun v => stripDonl v.pkt)) == some units
 
-/-- every call is fine as it is or explained by the recorded defect -/
-def rtExplained (cfg : Cfg) : List (List (Nat × Bytes)) → List (Option (List C14.PktObs)) → Bool
+/-- every call is fine as it is or — if it was made with AddDONL — explained by the recorded defect -/
+def rtExplainedF : List RtCall → List (Option (List C14.PktObs)) → Bool
   | [], [] => true
-  | f :: fs, some o :: os =>
-    (callOkRelaxed cfg (f.map (·.2)) o || callExplained cfg (f.map (·.2)) o) && rtExplained cfg fs os
+  | (cfg, f) :: fs, some o :: os =>
+    (callOkRelaxed cfg (f.map (·.2)) o || callExplained cfg (f.map (·.2)) o) && rtExplainedF fs os
   | _, _ => false
 
-/-- `wf` is exactly the hypothesis of `c14_roundtrip` (`rtWF`): outside it nothing is claimed
-    (correspondence only; `rtNoPanic` is evaluated there but does not count) -/
+/-- `wf` is exactly the hypothesis of `c14_rt_flip` (`rtWFF`; on a history with constant options:
+    `rtWF`, the hypothesis of `c14_roundtrip`): outside it nothing is claimed (correspondence only;
+    `rtNoPanic` is evaluated there but does not count) -/
 def rt : Handler :=
-  mkHandler rdRtIn rdRtObs (fun i => rtObs i.cfg i.mtu i.frames)
-    (fun i o => if rtWF i.cfg i.mtu i.frames then rtOkRelaxed i.cfg i.frames o else C14.rtNoPanic o)
-    (fun i => rtWF i.cfg i.mtu i.frames)
-    (fun i _ => if rtKF i.cfg i.mtu i.frames then some "c14_donl_fu" else none)
+  -- H265Packet decodes each payload on its own with SetZeroAllocation(true) too: the model gives the
+  -- second receiver the same result, and the predicate is evaluated on both
+  mkHandler rdRtIn rdRtObs (fun i => (rtObsF i.mtu 0 i.calls).map (·.map (·.map fun p => (p, p.res))))
+    (fun i o =>
+      let f := fun o => if rtWFF i.mtu i.calls then rtOkRelaxedF i.calls o else C14.rtNoPanic o
+      f o.main && f o.zero)
+    (fun i => rtWFF i.mtu i.calls)
+    (fun i _ => if rtKFF i.mtu 0 i.calls then some "c14_donl_fu" else none)
     -- a failure inside the region counts as the KNOWN finding also when the bytes differ from the
-    -- model's (other cut points, …), as long as undoing the recorded defect makes the predicate hold
-    (fun i o => rtWF i.cfg i.mtu i.frames && rtExplained i.cfg i.frames o)
+    -- model's (other cut points, …), as long as undoing the recorded defect makes the predicate hold;
+    -- a call made without AddDONL is never excused
+    (fun i o => rtWFF i.mtu i.calls && rtExplainedF i.calls o.main && rtExplainedF i.calls o.zero)
 
 /-! ### c08.h265 -/
 
